@@ -335,6 +335,10 @@ C09_Stacks(Hh, e) ==
          stacks[v] # <<>> /\ ~(stacks[v][1] \in fin /\ Cardinality({x \in fin : x.v = v}) = 1)}}
   \cup {V("C09", "final_is_top_of_stack", "no_stack", x.v) : x \in {x \in fin : x.v \notin DOMAIN stacks \/ stacks[x.v] = <<>>}}
   \cup (IF Len(e.final) # Cardinality(fin) THEN {V("C09", "one_instruction_per_vehicle", "final", "final")} ELSE {})
+     \* the vehicle's own driver has the final word: what the driver asks for in this step is on top of its stack
+  \cup (IF "drv" \notin DOMAIN e THEN {} ELSE
+        {V("C09", "driver_has_final_word", e.drv[i].kind, e.drv[i].v) : i \in {i \in DOMAIN e.drv :
+           ~(e.drv[i].v \in DOMAIN stacks /\ stacks[e.drv[i].v] # <<>> /\ stacks[e.drv[i].v][1] = e.drv[i])}})
      \* last generated wins: the stack holds the generators' instructions in reverse generation order, with at most
      \* one more instruction (the driver's) on top
   \cup (IF ~logged THEN {} ELSE
